@@ -391,6 +391,27 @@ pub fn run_turntcp(run: &mut Run, live: &Live, buf_len: usize, stream: &[u8], nt
 }
 
 /// RFC 4571 framing of `IceSocketWrapper::TcpStream(..).recv_from` over a real loopback connection
+/// the first frame of an inbound connection on the shared passive TCP listener (`read_tcp_framed_packet`), over a real connection
+pub fn run_sharedtcp(run: &mut Run, live: &Live, stream: &[u8], nt: bool) {
+    let l = std::panic::AssertUnwindSafe(live);
+    let data = stream.to_vec();
+    exec(run, "sharedtcp", &hex(stream), "shared_tcp::read_tcp_framed_packet", nt, Some((0, 1500, 0)), move || {
+        l.rt.block_on(async {
+            use tokio::io::AsyncWriteExt;
+            let lis = tokio::net::TcpListener::bind("127.0.0.1:0").await.unwrap();
+            let addr = lis.local_addr().unwrap();
+            let writer = tokio::spawn(async move { let mut s = tokio::net::TcpStream::connect(addr).await.unwrap(); let _ = s.write_all(&data).await; let _ = s.shutdown().await; });
+            let (mut accepted, _) = lis.accept().await.unwrap();
+            super::start_alloc();
+            let r = rustrtc::verif_hooks::decoders::read_tcp_framed_packet(&mut accepted).await;
+            super::mark_alloc();
+            let _ = writer.await;
+            match r { Ok(v) => format!("ok {}", v.len()), Err(e) => { let t = e.to_string();
+                if t.starts_with("invalid TCP STUN frame length") { "err invalid_TCP_STUN_frame_length".into() } else if t.starts_with("read TCP STUN frame") { "err early_eof".into() } else { anyhow_text(&e) } } }
+        })
+    });
+}
+
 pub fn run_tcp4571(run: &mut Run, live: &Live, buf_len: usize, stream: &[u8], nt: bool) {
     let l = std::panic::AssertUnwindSafe(live);
     let data = stream.to_vec();
@@ -588,6 +609,24 @@ pub fn special(run: &mut Run, rng: &mut Rng, thorough: bool) {
         }
     }
     run_tcp4571(run, &live, 1500, &[], true);
+    // shared passive TCP listener: first frame of an inbound connection
+    {
+        let max = 1500usize;                 // MAX_STUN_MESSAGE (the model takes it from the generated constant; boundary cases around it)
+        run_sharedtcp(run, &live, &[], true); run_sharedtcp(run, &live, &[0], true); run_sharedtcp(run, &live, &[0xFF], true);
+        for len in [0usize, 1, 2, 19, 20, 28, max - 1, max, max + 1, 65535] {
+            for prov in [len, len.saturating_sub(1), 0, len + 3, len / 2] {
+                let mut st = (len as u16).to_be_bytes().to_vec(); st.extend(std::iter::repeat(0x44).take(prov.min(70_000)));
+                run_sharedtcp(run, &live, &st, true);
+            }
+        }
+        for _ in 0..(if thorough { 2_000 } else { 150 }) {
+            let body = if rng.chance(1, 2) { gen_binding_req(rng) } else { gen_stun(rng) };
+            let claimed = match rng.below(5) { 0 => body.len() + 1, 1 => body.len().saturating_sub(1), 2 => rng.below(70_000) as usize % 65536, _ => body.len() };
+            let mut st = (claimed as u16).to_be_bytes().to_vec(); st.extend_from_slice(&body);
+            if rng.chance(1, 4) { let k = rng.below(st.len() as u64 + 1) as usize; st.truncate(k); }
+            run_sharedtcp(run, &live, &st, true);
+        }
+    }
     // RTX unwrap
     run_rtx(run, &[], false);
     for a in 0..=255u8 { run_rtx(run, &[a], false); }
@@ -602,6 +641,8 @@ pub fn replay_special(run: &mut Run, stream: &str, a: &[&str]) -> bool {
         ("tcp4571", 2) => { let l = Live::new(); run_tcp4571(run, &l, p(a[0]) as usize, &unhex(a[1]), true) }
         ("turntcp", 2) => { let l = Live::new(); run_turntcp(run, &l, p(a[0]) as usize, &unhex(a[1]), true) }
         ("rtx", 1) => run_rtx(run, &unhex(a[0]), true),
+        ("sharedtcp", 1) => { let l = Live::new(); run_sharedtcp(run, &l, &unhex(a[0]), true) }
+        ("sharedtcp", 0) => { let l = Live::new(); run_sharedtcp(run, &l, &[], true) }
         ("iceflood", 2) => run_iceflood(run, p(a[0]) as u8, p(a[1]) as u32),
         ("turnclient", n) if n >= 2 => { let l = Live::new(); let sc: Vec<Vec<u8>> = a[2..].iter().map(|x| if *x == "-" { vec![] } else { unhex(x) }).collect(); run_turnclient(run, &l, p(a[0]) as u8, a[1] == "1", &sc, true) }
         _ => return false,
